@@ -142,7 +142,9 @@ fn gen_rules(r: &mut Rng, host: &str, path_tok: &str) -> Vec<String> {
             }
         }
         if r.chance(1, 6) {
-            opts.push(format!("domain={}", r.ps(gen::HOSTS)));
+            let n = 1 + r.below(3);
+            let ds: Vec<&str> = (0..n).map(|_| r.ps(gen::HOSTS)).collect();
+            opts.push(format!("domain={}", ds.join("|")));
         }
         if r.chance(1, 8) {
             // still a removeparam rule: it rewrites, it does not block
@@ -201,7 +203,23 @@ pub fn run(ctx: &mut Ctx) {
             // text-level reading of $badfilter (independent of the crate's rule ids): a line
             // `R,badfilter` cancels every line whose text is exactly R, and never matches itself
             // (the parser reads `||www.host` as `||host`, so those two spellings are one rule)
-            let canon = |l: &str| l.replace("||www.", "||");
+            // ... and two spellings with the same pattern, parameter, other options and the same
+            // set of admitted request types have "the same matching options")
+            let canon = |l: &str| -> String {
+                let l = l.replace("||www.", "||");
+                match l.rsplit_once('$') {
+                    Some((pat, opts)) => {
+                        let mut other: Vec<&str> = opts
+                            .split(',')
+                            .filter(|o| !matches!(o.trim_start_matches('~'), "document" | "xhr" | "xmlhttprequest" | "subdocument" | "script" | "image"))
+                            .collect();
+                        other.sort();
+                        let types: String = ["document", "subdocument", "xhr", "script", "image", "other"].iter().map(|t| if admits(&l, t) { '1' } else { '0' }).collect();
+                        format!("{}${}|{}", pat, other.join(","), types)
+                    }
+                    None => l,
+                }
+            };
             let cancelled: Vec<String> = rules.iter().filter_map(|l| l.strip_suffix(",badfilter")).map(canon).collect();
             let effective: Vec<String> = rules.iter().filter(|l| !l.ends_with(",badfilter") && !cancelled.contains(&canon(l))).cloned().collect();
             let opts = ParseOptions::default();
@@ -266,6 +284,23 @@ pub fn run(ctx: &mut Ctx) {
             let (nf, _) = parse_filters(&rules, true, opts);
             let mut blocker = Blocker::new(nf, &BlockerOptions { enable_optimizations: false });
             let storage = ResourceStorage::from_resources(resdefs.iter().map(|d| d.to_resource()));
+            // ... and one that received the rules one add_filter at a time (not possible with $badfilter)
+            if !rules.iter().any(|l| l.contains("badfilter")) {
+                let mut inc = Blocker::new(vec![], &BlockerOptions { enable_optimizations: false });
+                for line in &rules {
+                    let (mut one, _) = parse_filters([line], true, opts);
+                    if let Some(f) = one.pop() {
+                        let _ = inc.add_filter(f);
+                    }
+                }
+                for (url, source, ty, want, slot) in &asked {
+                    let rq = Request::new(url, source, ty).unwrap();
+                    let got = inc.check(&rq, &storage).rewritten_url;
+                    if &got != want {
+                        out[*slot].0.push("C14:incrementally-built-blocker-rewrites-differently".to_string());
+                    }
+                }
+            }
             for phase in ["before-optimize", "after-optimize"] {
                 for (url, source, ty, want, slot) in &asked {
                     let rq = Request::new(url, source, ty).unwrap();
